@@ -24,6 +24,11 @@ PROFILE_PARAMS = [
     ('conc', {'focus': 'provider'}),
     ('conc', {'focus': 'consumer'}),
     ('conc', {'focus': 'mixed'}),
+    ('conc', {'focus': 'move'}),
+    ('conc', {'focus': 'reshape'}),
+    ('scale', {'scenarios': ['many-traits', 'many-aggregates',
+                             'many-classes'], 'sizes': [101]}),
+    ('crash', {'max_points': 12, 'variant': 'big'}),
     ('fault', {'max_points': 25}),
     ('crash', {'max_points': 25}),
     ('sync_fault', {}),
